@@ -67,6 +67,9 @@ WRITERS = [
     ["->", ["==", H0, T("1")], ["=", ["v", "w"], [], H1]],
     ["->", ["==", H0, T("1")], ["=", ["v", "p2"], [], fn("pop", [], [T("s")])]],
     ["->", ["==", H1, T("9")], ["=", ["v", "p3"], [], fn("pop", [], [T("s")])]],
+    ["=", ["v", "lt", "a"], ["latch"], H0],
+    ["=", ["v", "lt", "b"], ["latch"], H1],
+    ["=", ["v", "mx", "k"], ["increase"], H1],
     ["=", ["v", "zz"], [], fn("subtract", [], [H1, H1])],
     ["=", ["v", "ff"], [], fn("no")],
     ["=", ["v", "rf"], [], ["v", "cb", "False"]],
